@@ -10,9 +10,21 @@ SEED="${VERIF_SEED:-1}"
 BIN="$VERIF/bin"
 mkdir -p "$BIN" "$VERIF/evidence" "$VERIF/replays" "$VERIF/work"
 
+# VERIF_REPO (default /repo): an alternative mangle-go tree, used only by background sweeps that must not be
+# disturbed by edits to /repo (vp run --with-repo); the registered checks always build from /repo.
+REPO="${VERIF_REPO:-/repo}"
+MODFLAG=""
+[ "$REPO" != "/repo" ] && MODFLAG="-modfile=$VERIF/work/alt.go.mod"
 build() { # $1 = output, extra flags follow
   local out="$1"; shift
+  if [ "$REPO" != "/repo" ]; then
+    local mod="$VERIF/work/alt.go.mod"
+    sed "s#=> /repo#=> $REPO#" "$VERIF/harness/go.mod" > "$mod"
+    cat "$REPO/go.sum" "$VERIF/harness/go.sum.extra" 2>/dev/null | sort -u > "$VERIF/work/alt.go.sum"
+    (cd "$VERIF/harness" && go build -tags verif "$@" -modfile="$mod" -o "$out" ./cmd/vcheck) 2>"$VERIF/work/build.$$.log"
+  else
   (cd "$VERIF/harness" && cat /repo/go.sum go.sum.extra 2>/dev/null | sort -u > go.sum; go build -tags verif "$@" -o "$out" ./cmd/vcheck) 2>"$VERIF/work/build.$$.log"
+  fi
   local rc=$?
   if [ $rc -ne 0 ]; then
     echo "BUILD FAILED (harness or /repo does not compile with -tags verif):" >&2
@@ -27,7 +39,7 @@ fuzz_c10() {
   local execs="${VERIF_FUZZ_EXECS:-1000000}" bad=0 total=0
   local log="$VERIF/work/fuzz.$$.log"
   for target in FuzzUnit FuzzTerm FuzzPipeline FuzzFactFile; do
-    (cd "$VERIF/harness" && go test -tags verif -run '^$' -fuzz "^${target}\$" -fuzztime="${execs}x" ./fuzz) >"$log" 2>&1
+    (cd "$VERIF/harness" && go test -tags verif $MODFLAG -run '^$' -fuzz "^${target}\$" -fuzztime="${execs}x" ./fuzz) >"$log" 2>&1
     local rc=$?
     local n=$(grep -o 'execs: [0-9]*' "$log" | tail -1 | grep -o '[0-9]*')
     total=$((total + ${n:-0}))
